@@ -30,6 +30,10 @@ REQUIRED = {
 }
 TIMEOUT = {"quick": 1200, "thorough": 7000}
 ASSUMPTIONS = ["float32 outputs vs float64 closed forms: rtol 1e-4, atol 1e-4",
+               "softmax log-probabilities come from the distribution library, "
+               "which subtracts a float32 log-sum-exp: their tolerance grows with "
+               "the common offset of the logits (1e-6 * max |logit|); entropy and "
+               "probabilities are shift-invariant and keep the fixed tolerance",
                "exploration-rate check is statistical (6 sigma, Poisson-binomial)"]
 
 LOG2PI = float(np.log(2 * np.pi))
@@ -90,7 +94,8 @@ def build_head(case, rng):
         n = max(A, 2)
         net = MLP(d, n, [6], "tanh", nnx.Rngs(seed))
         if ext != "none":
-            b = {"pos": np.full(n, 1e4), "neg": np.full(n, -1e4),
+            big = float(rng.choice([1e4, 3e5]))  # large common offset
+            b = {"pos": np.full(n, big), "neg": np.full(n, -big),
                  "mixed": np.where(np.arange(n) % 2 == 0, 1e4, -1e4)}[ext]
             if ext != "mixed":
                 b = b + rng.normal(size=n)
@@ -179,7 +184,7 @@ def run_head(case):
             fin = np.isfinite(want) & (p[..., a] > 1e-30)
             if np.any(fin) and not np.allclose(np.exp(lp[fin]) if lp.ndim else np.exp(lp),
                                                p[..., a][fin] if lp.ndim else p[..., a],
-                                               rtol=1e-3, atol=1e-6):
+                                               rtol=1e-3 + f32, atol=1e-6):
                 res.violation(f"C13/{tag}/log_probability",
                               "exp(log-probability) differs from the probability")
                 return res
@@ -187,8 +192,9 @@ def run_head(case):
             plogp = np.where(np.exp(lsm) > 0, np.exp(lsm) * lsm, 0.0)
         want_e = -plogp.sum(-1)
         e = np.asarray(ent, np.float64)
-        if e.shape != bshape or not np.allclose(
-                e, want_e, rtol=1e-4, atol=1e-4 + 1e-6 * float(np.max(np.abs(lg)))):
+        # (reference and head see the same float32 logits; a shift-invariant
+        # evaluation of the entropy does not lose precision with their offset)
+        if e.shape != bshape or not np.allclose(e, want_e, rtol=1e-4, atol=1e-4):
             res.violation(f"C13/{tag}/entropy", f"entropy {e} vs closed form "
                           f"{want_e}")
             return res
